@@ -697,6 +697,65 @@ example : emittedGenerics (collectGenerics
     [(0, ⟨none, none, true, 7, 1, false, 1⟩), (1, ⟨none, none, true, 7, 1, false, 2⟩), (2, ⟨none, none, true, 8, 1, false, 0⟩)] [])
     = [(7, [0, 1])] := by decide
 
+/-! ### fortran_generic routing is local to the function -/
+
+theorem genericLoop_targets (orders : List (List Nat)) : ∀ (tab : List (List Nat × Nat)) (next : Nat),
+    ∀ t ∈ genericLoop orders tab next, (∃ e ∈ tab, e.2 = t) ∨ (next < t ∧ t < next + 2 * orders.length) := by
+  induction orders with
+  | nil => intro tab next t ht; simp [genericLoop] at ht
+  | cons o os ih =>
+    intro tab next t ht
+    have hget : ∀ (tb : List (List Nat × Nat)) v, genericLoop.assocGetL tb o = some v → ∃ e ∈ tb, e.2 = v := by
+      intro tb
+      induction tb with
+      | nil => intro v h; simp [genericLoop.assocGetL] at h
+      | cons e r ihr =>
+        intro v h
+        obtain ⟨k, w⟩ := e
+        by_cases hk : (k == o) = true
+        · simp [genericLoop.assocGetL, hk] at h; exact ⟨(k, w), by simp, h⟩
+        · simp only [genericLoop.assocGetL, hk, Bool.false_eq_true, if_false] at h
+          obtain ⟨e', he', hv⟩ := ihr v h
+          exact ⟨e', List.mem_cons_of_mem _ he', hv⟩
+    simp only [genericLoop] at ht
+    cases hl : genericLoop.assocGetL tab o with
+    | some v =>
+      simp only [hl, List.mem_cons] at ht
+      rcases ht with rfl | ht
+      · exact Or.inl (hget tab _ hl)
+      · rcases ih tab (next + 1) t ht with h | h
+        · exact Or.inl h
+        · refine Or.inr ⟨by omega, ?_⟩
+          simp only [List.length_cons]; omega
+    | none =>
+      simp only [hl, List.mem_cons] at ht
+      rcases ht with rfl | ht
+      · refine Or.inr ⟨by omega, ?_⟩
+        simp only [List.length_cons]; omega
+      · rcases ih ((o, next + 1) :: tab) (next + 2) t ht with ⟨e, he, hv⟩ | h
+        · rcases List.mem_cons.mp he with rfl | he
+          · refine Or.inr ⟨by simp at hv; omega, ?_⟩
+            simp only [List.length_cons]; simp at hv; omega
+          · exact Or.inl ⟨e, he, hv⟩
+        · refine Or.inr ⟨by omega, ?_⟩
+          simp only [List.length_cons]; omega
+
+/-- **every fortran_generic / assumed-rank clone is routed to its own function or to a C clone
+    created for that same function** (an index allocated while that function is processed), whatever
+    other functions the scope holds: `genericTargets` takes nothing of them as input, and its
+    results lie in `{self} ∪ (next, next + 2 * #generics)` -/
+theorem generic_routing_local (self next : Nat) (cparams : List (Bool × Nat)) (generics : List (List (Bool × Nat))) :
+    ∀ t ∈ genericTargets self next cparams generics, t = self ∨ (next < t ∧ t < next + 2 * generics.length) := by
+  intro t ht
+  rcases genericLoop_targets _ _ _ t ht with ⟨e, he, hv⟩ | h
+  · simp at he; subst he; exact Or.inl hv.symm
+  · simpa using Or.inr h
+
+/-- two functions `f(const int *values, int n)` with a scalar and a rank(1) variant each: the second
+    function's array variant gets its OWN C clone (index 9), not the first function's (index 5) -/
+example : genericTargets 0 2 [(true, 0), (true, 0)] [[(true, 0), (true, 0)], [(true, 1), (true, 0)]] = [0, 4] ∧
+    genericTargets 1 6 [(true, 0), (true, 0)] [[(true, 0), (true, 0)], [(true, 1), (true, 0)]] = [1, 8] := by decide
+
 /-! ## non-vacuity: concrete instances of the hypotheses used above -/
 
 example : runArg Kind.charOut.fspec (Kind.charOut.cspec false) true (.buf [113, 113, 113, 113])
